@@ -141,7 +141,23 @@ def mon_c08(sc, prof, pairs):
     return out
 
 
-MONITORS = {"C01": mon_c01, "C02": mon_c02, "C03": mon_c03, "C08": mon_c08}
+def mon_c04(sc, prof, pairs):
+    """accessors: Some/None and panic exactly as std's get/index, same elements in every field, in bounds"""
+    out = []
+    for i, s in pairs:
+        if i["step"] == "end": continue
+        line = sc.lines[int(i["step"])]
+        w = line.split()
+        if w[0] not in ("get", "index"): continue
+        key = f"C04:{w[0]}:{w[4]}"
+        if i["status"] != s["status"] or i.get("ret") != s.get("ret"):
+            out.append(Failure(sc, prof, i["step"], f"{line}: soa={i['status']} {i.get('ret')} std={s['status']} {s.get('ret')}", key + ":agree", {"I": i["raw"], "S": s["raw"]}))
+        elif i.get("inb", "true") != "true":
+            out.append(Failure(sc, prof, i["step"], f"{line}: reference outside the initialised part of a field array", key + ":inbounds", {"I": i["raw"]}))
+    return out
+
+
+MONITORS = {"C04": mon_c04, "C01": mon_c01, "C02": mon_c02, "C03": mon_c03, "C08": mon_c08}
 
 
 def _meta_clonefuse(self, step):
@@ -173,8 +189,8 @@ def run_suite(prop, scenarios, profiles, monitors, tag="suite", compare_model=Tr
     path = os.path.join(WORK, prop, f"{tag}.scn")
     write_scenarios(path, scenarios)
     res = SuiteResult()
-    model = run_model(path) if compare_model else None
     for prof in profiles:
+        model = run_model(path, prof) if compare_model else None
         impl = run_harness(prof, path)
         if len(impl) != len(scenarios):
             raise BuildError(f"harness transcript has {len(impl)} scenarios, expected {len(scenarios)}")
